@@ -1,8 +1,15 @@
 """C03 -- a cache response is applied completely or not at all."""
 from .sync_common import *
 
-INFO = {"outside": "wip", "assumptions": []}
-MANIFEST = {"text": "wip", "note": "wip"}
+INFO = {
+    "outside": 'responses with more than 4 payload PDUs (3 in the quick tier), skeletons not in the families, more than 2 pre-existing prefix records + 1 key per cache',
+    "assumptions": ['rtr_receive_pdu contract (stub_receive_pdu)', 'table model adequacy (C02/C09/C10)', 'SInv on entry of rtr_sync (is_resetting => no session and no timestamp; session => timestamp; records => timestamp)'],
+}
+MANIFEST = {
+    "text": "Bounded model checking of the real rtr_sync + rtr_sync_receive_and_store_pdus + store/apply/undo code on a family of exchange SKELETONS (which PDU type or receive failure at which position; 53 quick / ~90 thorough, up to 4 payload PDUs): within a skeleton every PDU field, flag, session id, serial, the socket state and the pre-state of both tables are symbolic. The solver decides, for universally quantified witness records, 'after success = previous + announced - withdrawn (or exactly the announced set on reload), serial = EOD serial' and 'after failure = untouched and same next query, or everything of this cache gone and Reset Query next', and that other caches' records never change.",
+    "note": 'Bounded: skeleton families listed in the evidence file; tables are the array model lib/table_model.h whose adequacy is C02/C09/C10; rtr_receive_pdu is replaced by its contract (proved on the real function in rtr_recv.c jobs of C04/C13/C14); RTR_MAX_PDU_LEN and the PDU store increment are scaled through RTRLIB_VERIF hooks (160 / 2) so that the store regrowth path runs. No native replay for this unit (call replacement is done on the goto binary).',
+    "technique": 'CBMC on real rtr_sync with skeleton-enumerated PDU sequences, contract stubs, symbolic fields and table pre-state',
+}
 
 
 def jobs(tier):
